@@ -129,6 +129,12 @@ def gen_config(rng, size="small", uniform=None):
     nl = rng.choice([1, 1, 2, 3]) if size == "small" else rng.randint(1, 4)
     # layer heights: ground, anywhere up to 12 km, and sometimes up to 25 km (above a low Rayleigh beacon: the cone factor is <= 0 there)
     layers = [{"h": rng.choice([0.0, rng.uniform(0, 12000), rng.uniform(0, 12000), rng.uniform(12000, 25000)]), "r0": rng.uniform(0.05, 1.0), "L0": rng.choice([rng.uniform(5, 100), rng.uniform(5, 100), rng.uniform(5, 100), rng.uniform(1, 5), rng.loguniform(1e3, 1e5)])} for _ in range(nl)]   # incl. outer scales below the pupil size and near-Kolmogorov ones (km and more)
+    # a layer within 5 % of a beacon's altitude has a cone factor |1 - h/alt| < 0.05: every entry then scales with the inverse
+    # square of a nearly cancelled difference and is decided by the rounding of the inputs, not by the code -- keep clear of it
+    for l in layers:
+        for a_ in alt:
+            if a_ > 0 and abs(1.0 - l["h"] / a_) < 0.05:
+                l["h"] = a_ * (1.06 + 0.2 * rng.random()) if l["h"] >= a_ else a_ * (0.94 - 0.2 * rng.random())
     maxn = max(max(len(MASKS[m]), len(MASKS[m][0])) for m in mk)
     D = maxn * max(d)
     wvl = [rng.choice([500e-9, rng.uniform(4e-7, 2e-6)]) for _ in range(nw)]
